@@ -40,6 +40,7 @@ func main() {
 	if *maxDig > 0 {
 		g.maxDig = *maxDig
 	}
+	staleRand = g.intn
 	if *replay != "" {
 		doReplay(*replay, w)
 		return
